@@ -17,7 +17,7 @@ RULE = ('`python -m pyx12.scripts.x12norm` is run as a subprocess (one process p
         'Every sixth step the last 2-3 inputs are also normalised in ONE invocation (separate arguments in place, to stdout, or through a glob pattern in place); each result must equal the single-file run. non-trivial = distinct (document, option set) pairs; for the repair part those with >=1 perturbed counter.')
 ASSUMPTIONS = ['input files are ASCII (the tool opens files as ASCII by design); --output with several input files (each overwrites the last) is not judged',
                'a segment without any element is not generated (format() writes "SE*~" for "SE~")', 'the exit status and log lines on stderr are not judged']
-REQUIRED_COUNTERS = ['perturbed:hl-numbers-and-parents-shifted-together', 'mode:output:over-existing-file', 'inputs:longer-than-one-read-buffer:inplace', 'inputs:longer-than-one-read-buffer:output', 'inputs:longer-than-one-read-buffer:stdout', 'invocations', 'mode:stdout', 'mode:output', 'mode:inplace', 'opt:eol', 'opt:fixcounting', 'idempotence-checked', 'repairs-checked', 'perturbed-counters', 'inputs:line-break-character-as-terminator', 'inputs:terminator-at-read-boundary', 'inputs:isa-field-ending-in-component-separator', 'inputs:trailer-whose-true-count-is-zero', 'multi-file-invocations', 'multi-file:later-output-shorter', 'multi-file:inplace', 'multi-file:stdout', 'multi-file:inplace-glob']
+REQUIRED_COUNTERS = ['inputs:segments-ending-in-blank-only-elements', 'perturbed:hl-numbers-and-parents-shifted-together', 'mode:output:over-existing-file', 'inputs:longer-than-one-read-buffer:inplace', 'inputs:longer-than-one-read-buffer:output', 'inputs:longer-than-one-read-buffer:stdout', 'invocations', 'mode:stdout', 'mode:output', 'mode:inplace', 'opt:eol', 'opt:fixcounting', 'idempotence-checked', 'repairs-checked', 'perturbed-counters', 'inputs:line-break-character-as-terminator', 'inputs:terminator-at-read-boundary', 'inputs:isa-field-ending-in-component-separator', 'inputs:trailer-whose-true-count-is-zero', 'multi-file-invocations', 'multi-file:later-output-shorter', 'multi-file:inplace', 'multi-file:stdout', 'multi-file:inplace-glob']
 MIN_CASES = {'quick': 120, 'thorough': 3000}
 WATCHDOG_S = {'quick': 1200, 'thorough': 7200}
 
@@ -272,6 +272,13 @@ def run(ctx):
                 doc, nper = perturb(rng, doc)
                 if doc.meta.get('hl_shifted'):
                     ctx.count('perturbed:hl-numbers-and-parents-shifted-together')
+            if k % 3 == 2:
+                # fixed-width sources: the last element(s) of a segment made of blanks only - data like any other, they stay
+                doc = faults.clone(doc)
+                body_ = [r_ for r_ in doc.recs if faults.is_body(r_)]
+                for r_ in rng.sample(body_, min(len(body_), 3)):
+                    r_.vals = list(r_.vals) + [' ' * rng.randint(1, 5)] * rng.randint(1, 2)
+                ctx.count('inputs:segments-ending-in-blank-only-elements')
             brk = rng.choice(['', '\n', '\r\n', '\n\n']) if terms[0] not in '\r\n' else ''
             if terms[0] in '\r\n':
                 ctx.count('inputs:line-break-character-as-terminator')
